@@ -6,6 +6,7 @@ import AnthemModel.Proofs.TauStarRules
 import AnthemModel.Props.C05
 import AnthemModel.Props.C07
 import AnthemModel.Props.C19
+import AnthemModel.Props.C08
 import AnthemModel.Model.Strong
 namespace Anthem
 open Asp
@@ -65,13 +66,18 @@ theorem allTrue_break (J : Interp) (ρ : Asg) (t : Theory) :
 /-- **One program through the whole pipeline** (tau*, optional HT simplification, gamma, optional
     classical simplification, optional eq-break): all resulting formulas are true in the merged
     interpretation iff `(H,T)` satisfies the program at world `here`. -/
-theorem processTheory_sem (t : StrongTask) (hrep : t.rep = .tauStar) (fuel : Nat) (prog : Program)
+theorem processTheory_sem (t : StrongTask) (fuel : Nat) (prog : Program)
     (th : Theory) (h : processTheory t fuel prog = some th) (hp : globalsPanic prog = false)
-    {J : Interp} {M : HTI} (hm : C05.Merges J M) (hsub : t.simplify = true → M.Sub) (ρ : Asg) :
+    {J : Interp} {M : HTI} (hm : C05.Merges J M)
+    (hsub : (t.simplify = true ∨ t.rep = .mu) → M.Sub) (ρ : Asg) :
     (∀ F ∈ th, sat J F ρ) ↔ progSat M .here prog := by
-  rw [← tauStar_correct prog hp M .here ρ]
+  have htr : (∀ F ∈ translateWith t.rep prog, ht M F .here ρ) ↔ progSat M .here prog := by
+    cases hrep : t.rep with
+    | mu => exact C08.mu_correct prog hp M (hsub (Or.inr hrep)) .here ρ
+    | tauStar => exact tauStar_correct prog hp M .here ρ
+  rw [← htr]
   unfold processTheory at h
-  simp only [hrep] at h
+  generalize translateWith t.rep prog = th0 at h ⊢
   cases hsimp : t.simplify with
   | false =>
     simp only [hsimp, Bool.false_eq_true, if_false, Option.pure_def, Option.bind_eq_bind,
@@ -83,7 +89,7 @@ theorem processTheory_sem (t : StrongTask) (hrep : t.rep = .tauStar) (fuel : Nat
     | true => simp only [if_true]; rw [allTrue_break]; exact allTrue_gamma hm ρ _
   | true =>
     simp only [hsimp, if_true, Option.pure_def, Option.bind_eq_bind] at h
-    cases h1 : simplifyTheory .ht fuel (tauStar prog) with
+    cases h1 : simplifyTheory .ht fuel th0 with
     | none => simp [h1] at h
     | some t1 =>
       simp only [h1, Option.bind_some] at h
@@ -95,9 +101,9 @@ theorem processTheory_sem (t : StrongTask) (hrep : t.rep = .tauStar) (fuel : Nat
         subst h
         have e1 := simplifyTheory_some h1
         have e2 := simplifyTheory_some h2
-        have main : (∀ F ∈ t2, sat J F ρ) ↔ ∀ F ∈ tauStar prog, ht M F .here ρ := by
+        have main : (∀ F ∈ t2, sat J F ρ) ↔ ∀ F ∈ th0, ht M F .here ρ := by
           rw [e2, allTrue_simplify_classic, allTrue_gamma hm, e1,
-            allTrue_simplify_ht M (hsub hsimp)]
+            allTrue_simplify_ht M (hsub (Or.inl hsimp))]
         cases t.breakEq with
         | false => simp only [Bool.false_eq_true, if_false]; exact main
         | true => simp only [if_true]; rw [allTrue_break]; exact main
@@ -277,14 +283,15 @@ def NoSymbolConflict (t : StrongTask) (fuel : Nat) : Prop :=
     (directionProblem0 "backward" (transitionAxioms t) r l "right_" "left_").renameConflictingSymbols =
       directionProblem0 "backward" (transitionAxioms t) r l "right_" "left_"
 
-/-- **C03, both directions at once.** For the tau* representation: some emitted problem is refuted
+/-- **C03, both directions at once.** Some emitted problem is refuted
     by the classical interpretation `J` that merges `(H,T)` iff `H ⊆ T` on the programs' predicates
     and `(H,T)` satisfies one program but not the other, in a direction the task asks for. -/
-theorem strong_refutes (t : StrongTask) (hrep : t.rep = .tauStar) (fuel : Nat) (ps : List Problem)
+theorem strong_refutes (t : StrongTask) (fuel : Nat) (ps : List Problem)
     (h : strongProblems t fuel = some ps)
     (hpl : globalsPanic t.left = false) (hpr : globalsPanic t.right = false)
     (hnc : NoSymbolConflict t fuel)
-    {J : Interp} {M : HTI} (hm : C05.Merges J M) (hsub : t.simplify = true → M.Sub) (ρ : Asg) :
+    {J : Interp} {M : HTI} (hm : C05.Merges J M)
+    (hsub : (t.simplify = true ∨ t.rep = .mu) → M.Sub) (ρ : Asg) :
     (∃ P ∈ ps, Refutes J ρ P) ↔
       SubOn M (ext t.left.preds t.right.preds) ∧
       (((t.direction = .universal ∨ t.direction = .forward) ∧
@@ -301,8 +308,8 @@ theorem strong_refutes (t : StrongTask) (hrep : t.rep = .tauStar) (fuel : Nat) (
       simp only [hl, hr, Option.pure_def, Option.bind_eq_bind, Option.bind_some, Option.some.injEq] at h
       subst h
       obtain ⟨hncf, hncb⟩ := hnc l r hl hr
-      have hL := processTheory_sem t hrep fuel t.left l hl hpl hm hsub ρ
-      have hR := processTheory_sem t hrep fuel t.right r hr hpr hm hsub ρ
+      have hL := processTheory_sem t fuel t.left l hl hpl hm hsub ρ
+      have hR := processTheory_sem t fuel t.right r hr hpr hm hsub ρ
       have hF := direction_refutes J ρ "forward" (transitionAxioms t) l r "left_" "right_" hncf t.decomposition
       have hB := direction_refutes J ρ "backward" (transitionAxioms t) r l "right_" "left_" hncb t.decomposition
       rw [transitionAxioms_sem hm, hL, hR] at hF hB
